@@ -8,6 +8,8 @@ import (
 	"fmt"
 	"strings"
 
+	"github.com/youchainhq/go-youchain/staking"
+
 	"verifharness/cmd/c07/chainkit"
 	"verifharness/internal/quiet"
 	"verifharness/internal/vh"
@@ -307,6 +309,19 @@ func run(c *vh.Ctx) error {
 				effective += len(r.Txs)
 			}
 			res.DistN("double-sign-evidence-accepted", len(b.evidence))
+			for k, n := range b.teFailed {
+				res.DistN(k, n)
+			}
+			for _, r := range b.effective {
+				for _, t := range r.Txs {
+					switch t.Action {
+					case staking.ValidatorDeposit:
+						res.Dist("te-deposit-reached")
+					case staking.DelegationAdd:
+						res.Dist("te-delegation-add-reached")
+					}
+				}
+			}
 			for _, t := range b.txs {
 				res.Dist("op-" + t.o.kind)
 				switch {
